@@ -495,10 +495,13 @@ Inductive ll_result := GoAhead | DoDisconnect.
 (* instant_passed( instant ) AFTER the repair fix/C21-instant-checks (defect #18): distance = uint16( instant - counter );
    distance == 0 || distance >= 32767. Used by all three instant checks of handle_ll_control_data.
    Before the repair: update  bit (u16 (inst + 65536 - evc + 1)) 32768 || (inst =? evc + 1),  map  bit (u16 (inst + 65536 - evc)) 32768,
-   LL_PHY_UPDATE_IND no check. *)
+   LL_PHY_UPDATE_IND no check.
+   The connection update still refuses the instant of the NEXT event ( || instant == counter + 1, an int: no wrap at
+   65535 ) - kept by the repair because the repository's test connection_update_request_invalid_instance demands it;
+   C21 known finding. *)
 Definition instant_passed (inst evc : N) : bool :=
   let d := u16 (inst + 65536 - evc) in (d =? 0) || (32767 <=? d).
-Definition instant_passed_update (inst evc : N) : bool := instant_passed inst evc.
+Definition instant_passed_update (inst evc : N) : bool := instant_passed inst evc || (inst =? evc + 1).
 Definition instant_passed_map (inst evc : N) : bool := instant_passed inst evc.
 
 Definition valid_phy_encoding (x : N) : bool := (x =? 0) || (x =? 1) || (x =? 2).
